@@ -20,12 +20,33 @@ ASSUMPTIONS = ["pre-emption at line granularity in the runner/storage modules an
                "locks are wrapped so that waiting is a scheduler decision; the locks themselves are real"]
 COMPONENTS = {"real": ["twosigma.memento (all)", "real threads, real thread-local call stacks, real locks", "tmpfs"],
               "stub": ["choice of which thread runs next (seeded scheduler)", "lock waiting", "uuid4, clock"]}
-REACH = ["post_lifetime_checks", "fan_out_cases", "granularity:opcode", "granularity:wide", "context_calls", "exception_calls", "stale_version_runs", "preemptions", "forced_switches", "lock_contention", "cache_evictions", "batch_calls", "schedules_with_same_key_race"]
+REACH = ["threads_under_copied_context", "post_lifetime_checks", "fan_out_cases", "granularity:opcode", "granularity:wide", "context_calls", "exception_calls", "stale_version_runs", "preemptions", "forced_switches", "lock_contention", "cache_evictions", "batch_calls", "schedules_with_same_key_race"]
 
 PROGRAM = '''
 import twosigma.memento as m
 from twosigma.memento.partition import InMemoryPartition
 from twosigma.memento.result import KeyOverrideResult
+from twosigma.memento.resource_function import resource_function
+from twosigma.memento.resource import ResourceHandle
+
+@resource_function(resource_type="vsim")
+def vres(url):
+    return ResourceHandle("vsim", url, "v-" + url[-1])
+
+@m.memento_function
+def rs(x):
+    __vtrace__("rs", x)
+    vres("vsim://r%d" % x)       # an external resource handle obtained by this body
+    __vhint__()
+    return ["rs", x]
+
+@m.memento_function
+def rtop(x):
+    __vtrace__("rtop", x)
+    vres("vsim://t%d" % x)
+    a = rs(x)
+    __vhint__()
+    return [a, leaf(x)]
 
 @m.memento_function
 def bad(x):
@@ -114,7 +135,16 @@ def expect(fn, x):
         return "v" * 1500 + str(x)
     if fn == "top":
         return [expect("mid", x), expect("f", x)]
+    if fn == "rs":
+        return ["rs", x]
+    if fn == "rtop":
+        return [["rs", x], expect("leaf", x)]
     raise KeyError(fn)
+
+
+def resources(fn, x):
+    """urls of the resource handles the body of the call itself obtains"""
+    return {"rs": ["vsim://r%d" % x], "rtop": ["vsim://t%d" % x]}.get(fn, [])
 
 
 def provenance(fn, x):
@@ -129,6 +159,8 @@ def provenance(fn, x):
         return [["leaf", x]], {"part", "leaf"}
     if fn == "wide":
         return None, {"wide", "tiny"}
+    if fn == "rtop":
+        return [["rs", x], ["leaf", x]], {"rtop", "rs", "leaf"}
     return [], {fn}
 
 
@@ -148,8 +180,10 @@ def matches(got, exp):
 
 def closure(fn, x, ctx=None):
     """distinct calls (incl. nested) behind one call; ctx = the context argument they run under"""
-    if fn in ("leaf", "f", "bad", "wide", "ko"):      # (the fan-out of wide is not traced)
+    if fn in ("leaf", "f", "bad", "wide", "ko", "rs"):      # (the fan-out of wide is not traced)
         return {(fn, x, ctx)}
+    if fn == "rtop":
+        return {(fn, x, ctx), ("rs", x, ctx), ("leaf", x, ctx)}
     if fn == "mid":
         return {(fn, x, ctx), ("leaf", x, ctx), ("leaf", x + 1, ctx)}
     if fn == "catcher":
@@ -170,7 +204,7 @@ def gen_case(seed, tier):
     fns = ["f", "leaf", "mid", "top"]
     rich = rng.random() < 0.5     # exceptions, partitions, context arguments, ignore_result
     if rich:
-        fns = fns + ["bad", "catcher", "part", "ko", "ko"]
+        fns = fns + ["bad", "catcher", "part", "ko", "ko", "rs", "rtop"]
     fan = rng.random() < 0.02     # one thread's call fans out over 1300 distinct calls while the others run
     threads = {}
     base = [rng.choice(fns), rng.randrange(3)]
@@ -227,6 +261,8 @@ def gen_case(seed, tier):
         case["granularity"] = "wide"      # line-level pre-emption also in memento.py, base.py, context.py, code_hash.py
         if strat["kind"] == "pct":
             strat["horizon"] = strat["horizon"] * 2
+    if rng.random() < 0.15:
+        case["copyctx"] = True          # the threads run under copies of the main thread's contextvars context
     if rng.random() < 0.3:
         case["stale_versions"] = True   # a definition after the program was loaded: every version is recomputed by the racing threads
     return case
@@ -262,6 +298,12 @@ def cases(tier, seed):
             for at in range(1, 2600 if tier == "thorough" else 1400, 2 if (stride > 1 and bi == 5) else stride):
                 out.append({"seed": 7000 + bi, "backend": backend, "scenario": scen, "keymode": "sweep", "threads": threads,
                             "strategy": {"kind": "sweep", "at": at, "to": 0, "first": first}})
+    # two root calls, one under context arguments, in threads that run under copies of one contextvars context
+    for first in (0, 1):
+        for at in range(1, 2600 if tier == "thorough" else 1400, stride):
+            out.append({"seed": 7100, "backend": "fs", "scenario": "cold", "keymode": "sweep", "copyctx": True,
+                        "threads": {"T0": [["ctx", "mid", 1, 0]], "T1": [["call", "leaf", 2], ["call", "f", 1]]},
+                        "strategy": {"kind": "sweep", "at": at, "to": 0, "first": first}})
     return out
 
 
@@ -332,8 +374,17 @@ def execute(case):
                                  line_modules=simsched.LINE_MODULES + (("memento.py", "base.py", "context.py", "code_hash.py")
                                                                        if gran == "wide" else ()),
                                  opcodes=gran == "opcode")
+        if case.get("copyctx"):
+            # worker threads started the way asyncio.to_thread / run_in_executor wrappers start them: each under a copy of
+            # the starting thread's contextvars context, taken after that thread has made a memento call of its own
+            import contextvars
+            mod.leaf(7)
+            side.take()
         for name in sorted(case["threads"]):
-            sch.add(name, (lambda s: (lambda: _run_script(mod, s)))(case["threads"][name]))
+            if case.get("copyctx"):
+                sch.add(name, (lambda s, cx: (lambda: cx.run(_run_script, mod, s)))(case["threads"][name], contextvars.copy_context()))
+            else:
+                sch.add(name, (lambda s: (lambda: _run_script(mod, s)))(case["threads"][name]))
         finished = sch.run(wall_timeout=core.LIFETIME_TIMEOUT * 0.6)
         viol = []
         if not finished:
@@ -454,6 +505,9 @@ def execute(case):
                 deps = set(d.function_name for d in mem.function_dependencies)
                 if inv_exp is not None and inv != inv_exp:
                     bad_.append(["record-invocations-differs", {"fn": fn}, {"call": [fn, x, ctx], "got": inv, "expected": inv_exp}])
+                elif [r.url for r in im.resources] != resources(fn, x):
+                    bad_.append(["record-resources-differs", {"fn": fn}, {"call": [fn, x, ctx], "got": [r.url for r in im.resources],
+                                                                         "expected": resources(fn, x)}])
                 elif deps != deps_exp:
                     bad_.append(["record-deps-differs", {"fn": fn, "diff": "missing" if deps_exp - deps else "extra"},
                                  {"call": [fn, x, ctx], "got": sorted(deps), "expected": sorted(deps_exp)}])
@@ -487,6 +541,8 @@ def execute(case):
         st["schedules_with_same_key_race"] = 1
     if case.get("provenance"):
         st["provenance_records_checked"] = 1
+    if case.get("copyctx"):
+        st["threads_under_copied_context"] = 1
     dg = core.digest_of([r["results"], r["switches"], r["runs"], r["viol"]])
     return {"violations": viol, "digest": dg, "nontrivial": nontriv, "stats": st, "steps": steps, "key": r["coarse"],
             "schedule": r["switches"],
